@@ -272,7 +272,8 @@ class DAGRunConcurrentManager(DAGRunManagerLike):
                 u - Node
                 v - Node Edge
             """
-            if self.dag.graph.edges[u, v].get(EdgeField.case_branch):
+            # The label of a case may be falsy ('' or 0), so the presence of the attribute is checked
+            if EdgeField.case_branch in self.dag.graph.edges[u, v]:
                 return False
 
             # The candidates of a one-of are executed by the one-of itself, one by one. A candidate stays
@@ -451,7 +452,7 @@ class DAGRunConcurrentManager(DAGRunManagerLike):
 
             node_predecessors = {
                 pred_node_id for pred_node_id in node_predecessors
-                if not self.dag.graph.edges[pred_node_id, node_id].get(EdgeField.case_branch)
+                if EdgeField.case_branch not in self.dag.graph.edges[pred_node_id, node_id]
                 and pred_node_id not in oneof_nodes
             }
 
